@@ -15,9 +15,9 @@ from props import c03, c09
 LEVEL = 'exploration'
 EXHAUSTIVE = True
 TECHNIQUE = 'exhaustive enumeration of finalisation histories (close / context-manager exit, length 1..3) x writer class x format x file kind, plus Hypothesis record lists; read-back oracle and byte-stability after the first finalisation'
-RULE = ('Histories write* followed by every sequence over {close(), context-manager exit} of length 1..3 (14 sequences; the '
-        'first exit is a real with-statement holding the writes, later ones explicit __exit__ calls; plus 39 sequences over {close(), '
-        '__exit__, a whole empty with-block} run after plain writes, so that a with-block is also entered after a finalisation) x {VbsWriter, IpmWriter} x {VBS, 1014} x '
+RULE = ('Histories write* followed by every sequence over {close(), context-manager exit, context-manager exit through an exception raised after the writes} of length 1..3 (39 sequences; the '
+        'first exit is a real with-statement holding the writes, later ones explicit __exit__ calls; plus 84 sequences over {close(), '
+        '__exit__, a whole empty with-block, a with-block left through an exception} run after plain writes, so that a with-block is also entered after a finalisation) x {VbsWriter, IpmWriter} x {VBS, 1014} x '
         '{BytesIO, real w+b file, real write-only wb file} x record lists (boundary list enumerated, further lists from Hypothesis). Oracle: a fresh '
         'reader from offset 0 returns exactly the records written, and the file bytes after the first finalisation are '
         'identical after every later one. Non-trivial = >= 2 finalisations with >= 1 record; distinct by (sequence, class, '
@@ -25,9 +25,14 @@ RULE = ('Histories write* followed by every sequence over {close(), context-mana
 ASSUMPTIONS = ['the wrapped file stays open after close() (the documented usage closes it in an outer with-block)',
                'IpmWriter records are compared as the bytes iso8583.dumps produces for each message']
 
-SEQS = [''.join(s) for n in (1, 2, 3) for s in itertools.product('CX', repeat=n)]
+SEQS = [''.join(s) for n in (1, 2, 3) for s in itertools.product('CXE', repeat=n)]
+# E = the with-block is left through an exception raised after the writes (it propagates to the caller, who catches it)
 # second family: the records are written first, then every sequence over {close(), explicit __exit__, a whole `with w: pass` block}
-SEQS_AFTER = ['>' + ''.join(s) for n in (1, 2, 3) for s in itertools.product('CXW', repeat=n)]
+SEQS_AFTER = ['>' + ''.join(s) for n in (1, 2, 3) for s in itertools.product('CXWE', repeat=n)]
+
+
+class Boom(Exception):
+    pass
 BOUNDARY_LISTS = [[], [1], [5, 1008], [1012], [1004], [1008, 1], [2024, 3], [6000], [28, 34], [1000, 1000, 1000]]
 
 
@@ -68,7 +73,6 @@ def run_history(seq, records, ipm, blocked, real, scratch):
     try:
         w = mciipm.IpmWriter(f, encoding='latin_1', blocked=blocked) if ipm else mciipm.VbsWriter(f, blocked=blocked)
         snaps = []
-        first_x = seq.find('X')
         if seq.startswith('>'):
             for r in records:
                 w.write(dict(r) if ipm else r)
@@ -77,18 +81,30 @@ def run_history(seq, records, ipm, blocked, real, scratch):
                     w.close()
                 elif tok == 'X':
                     w.__exit__(None, None, None)
+                elif tok == 'E':
+                    try:
+                        with w:
+                            raise Boom()
+                    except Boom:
+                        pass
                 else:
                     with w:
                         pass
                 snaps.append(snap())
             return snaps, expected
+        first_x = min([i for i, c in enumerate(seq) if c in 'XE'] or [-1])
         if first_x >= 0:
-            with w as ww:
-                for r in records:
-                    ww.write(dict(r) if ipm else r)
-                for _ in seq[:first_x]:
-                    ww.close()
-                    snaps.append(snap())
+            try:
+                with w as ww:
+                    for r in records:
+                        ww.write(dict(r) if ipm else r)
+                    for _ in seq[:first_x]:
+                        ww.close()
+                        snaps.append(snap())
+                    if seq[first_x] == 'E':
+                        raise Boom()
+            except Boom:
+                pass
             snaps.append(snap())
             rest = seq[first_x + 1:]
         else:
@@ -98,6 +114,8 @@ def run_history(seq, records, ipm, blocked, real, scratch):
         for tok in rest:
             if tok == 'C':
                 w.close()
+            elif tok == 'E':
+                w.__exit__(Boom, Boom(), None)
             else:
                 w.__exit__(None, None, None)
             snaps.append(snap())
@@ -156,7 +174,7 @@ def enumerate_histories(ctx, ipm, blocked, real):
     finally:
         scratch.cleanup()
     ctx.bulk(n, nontrivial_distinct=nt, label=f"{'ipm' if ipm else 'vbs'}/{'1014' if blocked else 'plain'}/{('file-' + str(real)) if real else 'mem'}")
-    ctx.enumerated('all 14 finalisation sequences over {close, exit} of length 1..3 (writes inside the with block) and all 39 sequences over {close, __exit__, whole with-block} of length 1..3 after the writes, x 10 record lists x writer class x format x file kind')
+    ctx.enumerated('all 39 finalisation sequences over {close, exit, exit through an exception} of length 1..3 (writes inside the with block) and all 84 sequences over {close, __exit__, whole with-block, with-block left through an exception} of length 1..3 after the writes, x 10 record lists x writer class x format x file kind')
     if not real and not ipm:
         ctx.sample({'history': 'with writer: write(1008 bytes); write(1 byte); close()  [then leaving the with block]', 'seq': 'CX', 'blocked': blocked})
 
